@@ -68,3 +68,58 @@ Example order_premises_met :
   let a := mkA 12345 3 in let b := mkA 12355 3 in
   exp a = exp b /\ val a <= val b /\ val (rescale a 2) = 1235 /\ val (rescale b 2) = 1236.
 Proof. vm_compute. repeat split; discriminate. Qed.
+
+(* ---------- compare is the rational order: a total order on denotations ---------- *)
+Lemma compare_range a b : compare a b = -1 \/ compare a b = 0 \/ compare a b = 1.
+Proof.
+  unfold compare. destruct (_ <? _); [left; reflexivity|].
+  destruct (_ <? _); [right; right; reflexivity | right; left; reflexivity].
+Qed.
+
+(* compare is determined by the denotations alone *)
+Lemma compare_compat a a' b b' :
+  Qeq (toQ a) (toQ a') -> Qeq (toQ b) (toQ b') -> compare a b = compare a' b'.
+Proof.
+  intros Ha Hb.
+  destruct (compare_spec a b) as (L & E & G). destruct (compare_spec a' b') as (L' & E' & G').
+  destruct (compare_range a b) as [C|[C|C]]; rewrite C; symmetry.
+  - apply L'. rewrite <- Ha, <- Hb. apply L, C.
+  - apply E'. rewrite <- Ha, <- Hb. apply E, C.
+  - apply G'. rewrite <- Ha, <- Hb. apply G, C.
+Qed.
+
+Lemma compare_antisym a b : compare b a = - compare a b.
+Proof.
+  destruct (compare_spec a b) as (L & E & G). destruct (compare_spec b a) as (L' & E' & G').
+  destruct (compare_range a b) as [C|[C|C]]; rewrite C.
+  - apply G', L, C.
+  - apply E'. symmetry. apply E, C.
+  - apply L', G, C.
+Qed.
+
+Lemma compare_refl a : compare a a = 0.
+Proof. apply (compare_spec a a). reflexivity. Qed.
+
+Lemma compare_lt_trans a b c : compare a b = -1 -> compare b c = -1 -> compare a c = -1.
+Proof.
+  intros H1 H2. apply (compare_spec a c).
+  apply Qlt_trans with (toQ b); [apply (compare_spec a b), H1 | apply (compare_spec b c), H2].
+Qed.
+
+Lemma compare_eq_trans a b c : compare a b = 0 -> compare b c = 0 -> compare a c = 0.
+Proof.
+  intros H1 H2. apply (compare_spec a c).
+  transitivity (toQ b); [apply (compare_spec a b), H1 | apply (compare_spec b c), H2].
+Qed.
+
+(* raising the precision of either operand never changes the outcome: no decimals are dropped *)
+Lemma compare_rescale_up a b e e' :
+  (exp a <= e)%nat -> (exp b <= e')%nat -> compare (rescale a e) (rescale b e') = compare a b.
+Proof. intros Ha Hb. apply compare_compat; apply rescale_lossless; assumption. Qed.
+
+(* the extra decimals of the second operand decide: b = a + one unit of a finer precision is larger *)
+Lemma compare_sees_finer_decimals a n : compare a (mkA (val a * pow10 (S n) + 1) (exp a + S n)) = -1.
+Proof.
+  apply (compare_spec a _). unfold Qlt, toQ. cbn [Qnum Qden val exp]. rewrite !pos_pow10.
+  rewrite pow10_add. pose proof (pow10_pos (exp a)). pose proof (pow10_pos (S n)). nia.
+Qed.
